@@ -346,6 +346,15 @@ func GroupByIWithContext[T any, K comparable](iteratee func(ctx context.Context,
 				})
 			}
 
+			// The callbacks below may run on different goroutines (producer vs. unsubscriber):
+			// the map is emptied in place, the variable itself is never overwritten.
+			clearGroups := func() {
+				groups.Range(func(key, _ any) bool {
+					groups.Delete(key)
+					return true
+				})
+			}
+
 			sub := source.SubscribeWithContext(
 				subscriberCtx,
 				NewObserverWithContext(
@@ -367,13 +376,13 @@ func GroupByIWithContext[T any, K comparable](iteratee func(ctx context.Context,
 						destination.ErrorWithContext(ctx, err)
 						notifyAll(func(o Observer[T]) { o.ErrorWithContext(ctx, err) })
 
-						groups = sync.Map{}
+						clearGroups()
 					},
 					func(ctx context.Context) {
 						destination.CompleteWithContext(ctx)
 						notifyAll(func(o Observer[T]) { o.CompleteWithContext(ctx) })
 
-						groups = sync.Map{}
+						clearGroups()
 					},
 				),
 			)
@@ -382,12 +391,7 @@ func GroupByIWithContext[T any, K comparable](iteratee func(ctx context.Context,
 				sub.Unsubscribe()
 				notifyAll(func(o Observer[T]) { o.CompleteWithContext(context.TODO()) })
 
-				// The teardown may run on another goroutine than the producer: empty the map
-				// in place instead of overwriting the variable the Next callback is reading.
-				groups.Range(func(key, _ any) bool {
-					groups.Delete(key)
-					return true
-				})
+				clearGroups()
 			}
 		})
 	}
